@@ -100,8 +100,16 @@ fn merge_differences(real: &[(i64, u8, u8)], want: &[(i64, u8, u8)]) -> Vec<(&'s
 
 /// Real `merge` of two reached regions, judged against the statement. Returns the merged state
 /// (real region + allowed store) when the real code did not panic.
-fn judge_merge<T: Dom>(rep: &Reporter, a: &St<T>, b: &St<T>, case: &dyn Fn() -> Case, lo: i64, hi: i64, stable: &AtomicU64) -> Option<St<T>> {
+fn judge_merge<T: Dom>(out: &mut Vec<(String, Value)>, a: &St<T>, b: &St<T>, lo: i64, hi: i64, stable: &AtomicU64) -> Option<St<T>> {
     let dom = T::NAME;
+    struct Sink<'x>(&'x mut Vec<(String, Value)>);
+    impl<'x> Sink<'x> {
+        fn violation(&mut self, key: String, _case: (), detail: Value) {
+            self.0.push((key, detail));
+        }
+    }
+    let mut rep = Sink(out);
+    let case = ();
     let want = ref_merge_stores::<T>(&a.refstore, &b.refstore);
     let real = match catch(|| a.region.merge(&b.region)) {
         Ok(r) => r,
@@ -154,13 +162,14 @@ fn search<T: Dom>(ctx: &Ctx, rep: &Reporter, phase: &str, cfg: &Cfg, inits: &[(S
     let acts = alphabet::<T>(cfg);
     let (lo, hi) = (cfg.lo, cfg.hi);
 
-    let mut sr_out = (0usize, 0usize, 0usize, BTreeMap::<&'static str, (usize, Vec<Act>)>::new());
+    let mut sr_out = (0usize, 0usize, 0usize, BTreeMap::<&'static str, (usize, Vec<Act>)>::new(), 0f64);
     let mut mcx_out = None;
     let mut regions: Vec<(St<T>, usize, Vec<Act>)> = Vec::new();
     let mut mcx_failed: BTreeSet<&'static str> = BTreeSet::new();
     std::thread::scope(|scope| {
         // ---- engine 1: stateright (multi-threaded BFS)
         let h = scope.spawn(|| {
+            let t0 = std::time::Instant::now();
             let model = C05Model::<T>::new(cfg.clone(), init_states.clone());
             let checker = model.checker().threads(sr_threads.max(1)).spawn_bfs().join();
             let mut disc = BTreeMap::new();
@@ -171,8 +180,9 @@ fn search<T: Dom>(ctx: &Ctx, rep: &Reporter, phase: &str, cfg: &Cfg, inits: &[(S
                 let actions: Vec<Act> = v.into_iter().filter_map(|(_, a)| a).collect();
                 disc.insert(name, (idx, actions));
             }
-            (checker.unique_state_count(), checker.state_count(), checker.max_depth(), disc)
+            (checker.unique_state_count(), checker.state_count(), checker.max_depth(), disc, t0.elapsed().as_secs_f64())
         });
+        let t1 = std::time::Instant::now();
         // ---- engine 2: mcx::bfs (sequential, exact level order, key = canonical cell lists)
         let mut seen_regions: BTreeSet<Vec<(i64, u8, u8)>> = BTreeSet::new();
         let mut local_outcomes: BTreeSet<u64> = BTreeSet::new();
@@ -213,11 +223,11 @@ fn search<T: Dom>(ctx: &Ctx, rep: &Reporter, phase: &str, cfg: &Cfg, inits: &[(S
             ctx.cap_hit(&format!("{dom} {phase}: mcx::bfs state cap"));
         }
         ctx.add_nontrivial(nontrivial);
-        mcx_out = Some((stats, seen_regions.len()));
+        mcx_out = Some((stats, seen_regions.len(), t1.elapsed().as_secs_f64()));
         sr_out = h.join().unwrap_or_else(|_| mcx::machinery("stateright thread panicked"));
     });
-    let (stats, distinct_regions) = mcx_out.unwrap();
-    let (sr_unique, sr_generated, sr_depth, disc) = sr_out;
+    let (stats, distinct_regions, mcx_wall) = mcx_out.unwrap();
+    let (sr_unique, sr_generated, sr_depth, disc, sr_wall) = sr_out;
 
     // stateright's discoveries: the set of violated invariants must be the one mcx::bfs found
     for (name, (idx, actions)) in &disc {
@@ -240,8 +250,8 @@ fn search<T: Dom>(ctx: &Ctx, rep: &Reporter, phase: &str, cfg: &Cfg, inits: &[(S
         "alphabet_size": acts.len(),
         "initial_states": init_states.len(),
         "depth_bound": cfg.max_depth,
-        "stateright": {"unique_state_count": sr_unique, "state_count": sr_generated, "transitions": sr_transitions, "max_depth": sr_depth, "properties_with_discovery": disc.keys().collect::<Vec<_>>()},
-        "mcx_bfs": {"unique_states": stats.states, "transitions": stats.transitions, "max_depth": stats.max_depth, "per_depth": stats.per_depth, "invariants_violated": mcx_failed.iter().collect::<Vec<_>>()},
+        "stateright": {"unique_state_count": sr_unique, "state_count": sr_generated, "transitions": sr_transitions, "max_depth": sr_depth, "threads": sr_threads, "wall_s": sr_wall, "properties_with_discovery": disc.keys().collect::<Vec<_>>()},
+        "mcx_bfs": {"unique_states": stats.states, "transitions": stats.transitions, "max_depth": stats.max_depth, "per_depth": stats.per_depth, "wall_s": mcx_wall, "invariants_violated": mcx_failed.iter().collect::<Vec<_>>()},
         "distinct_regions": distinct_regions,
         "note": "a state is (real region, reference store, steps used); every action is enabled in every state, so the count is the sum over k of the regions reachable in exactly k steps",
     });
